@@ -83,6 +83,35 @@ def deep_family(d):
     }
 
 
+# Scaling family: the whole size of the input sits on ONE line (minified / generated code, the strings handed to compile,
+# one-line config entries, many macro uses on a preprocessor line). unit, prefix, suffix, routes - one route per case, so that
+# the peak-memory rise the harness reports is that route's own. Each is run at SCALE_SIZES bytes.
+SCALE_SIZES = [20000, 40000, 80000]
+SCALE = {
+    "sqf-statements-one-line": (b'v = [1, "ab"] + [2];', b"", b"", ["SQF", "COMPILE", "ASSEMBLY"]),
+    "sqf-statements-per-line": (b'v = [1, "ab"] + [2];\n', b"", b"", ["SQF"]),
+    "sqf-array-one-line": (b"12345,", b"x = [", b"1];", ["SQF", "COMPILE"]),
+    "sqf-operators-one-line": (b"a + b * c - d;", b"", b"", ["SQF"]),
+    "sqf-strings-one-line": (b'"abc""def", ', b"x = [", b"1];", ["TOK", "SQF"]),
+    "config-entries-one-line": (b"x = 1; s = \"ab\"; a[] = {1,2}; ", b"class A { ", b"};", ["CFG", "CONFIGPARSE"]),
+    "config-classes-one-line": (b"class B { y = 2; }; ", b"class A { ", b"};", ["CFG"]),
+    "macro-uses-one-line": (b"A + ", b"#define A 1\nx = ", b"0;", ["PP", "PREPROCESS"]),
+    "macro-calls-one-line": (b"F(a,b) ", b"#define F(X,Y) X Y\n", b"", ["PP"]),
+    "plain-text-one-line": (b"word1 word2, ", b"", b"", ["PP", "RD"]),
+}
+# what "proportional to the input" is taken to mean for one route on one input of n bytes (plain build):
+#   peak memory  <= SCALE_MEM_BASE_KB + SCALE_MEM_PER_BYTE * n     (the unchanged front ends need < 300 bytes per input byte)
+#   doubling the input at most SCALE_RATIO-folds time and memory, beyond a floor that absorbs noise
+SCALE_MEM_BASE_KB, SCALE_MEM_PER_BYTE, SCALE_RATIO = 16 * 1024, 1024, 3.0
+SCALE_MEM_FLOOR_KB, SCALE_TIME_FLOOR_MS = 8 * 1024, 1000
+
+
+def scale_text(name, size):
+    unit, pre, suf, _ = SCALE[name]
+    n = max(1, (size - len(pre) - len(suf)) // len(unit))
+    return pre + unit * n + suf
+
+
 RECURSIVE = [
     ("macro-self", b"#define A A\nA", {}, 10014), ("macro-self-args", b"#define F(X) F(X)\nF(1)", {}, 10014),
     ("macro-mutual", b"#define A B\n#define B A\nA", {}, 10014), ("macro-three", b"#define A B + 1\n#define B C\n#define C A\nx = A;", {}, 10014),
@@ -114,6 +143,9 @@ def main(replay=None):
     himpl = V.build_harness("h_front", flav)
     # the sanitizer build is started with the enlarged stack limit it hands to its children (see kStackMb in the harness)
     hcmd = ["sh", "-c", "ulimit -s 262144 2>/dev/null; exec %s" % himpl] if thorough else [himpl]
+    # resource scaling is measured on the plain build in both tiers (the sanitizer's quarantine and red zones hide the memory
+    # an input needs; the plain build also runs under the address-space limit of the fork harness)
+    hplain = himpl if not thorough else V.build_harness("h_front", "plain")
     drv = V.ocaml_driver("front")
     dmodel = ["sh", "-c", "ulimit -s unlimited 2>/dev/null || ulimit -s 1000000 2>/dev/null; exec %s repaired" % drv]
     dasis = ["sh", "-c", "ulimit -s unlimited 2>/dev/null || ulimit -s 1000000 2>/dev/null; exec %s asis" % drv]
@@ -197,6 +229,20 @@ def main(replay=None):
     lines = ["%s\t%s\t%s" % (c["routes"], hx(c["text"]), enc_files(c["files"])) for c in cases]
     rc, impl, err = V.run_lines_parallel(hcmd, lines, timeout=6000)
     rc2, model, err2 = V.run_lines_parallel(dmodel, lines, timeout=3000)
+
+    # ---- scaling family: one route per case, three sizes, plain build
+    scale_cases = []
+    if not replay or json.load(open(replay))["replay"].get("kind", "").startswith("scale:"):
+        if replay:
+            r = json.load(open(replay))["replay"]
+            want = [(r["kind"].split(":", 1)[1], r["route"])]
+        else:
+            want = [(name, route) for name in sorted(SCALE) for route in SCALE[name][3]]
+        for name, route in want:
+            for size in SCALE_SIZES:
+                scale_cases.append({"kind": "scale:" + name, "route": route, "size": size, "text": scale_text(name, size)})
+    slines = ["%s\t%s\t-" % (c["route"], hx(c["text"])) for c in scale_cases]
+    rc4, simpl, err4 = V.run_lines_parallel([hplain], slines, shards=min(V.NPROC, 6), timeout=3000) if slines else (0, [], "")
 
     kinds, samples, distinct = {}, [], set()
     stats = {"routes_run": 0, "model_comparisons": 0, "none_results": 0, "some_results": 0, "max_ms": 0, "known_deep": 0,
@@ -293,6 +339,51 @@ def main(replay=None):
         if len(samples) < 8 and k0 not in [s["kind"] for s in samples] and len(c["text"]) < 200:
             samples.append({"kind": k0, "text": c["text"].decode("latin-1"), "impl": il[:300]})
 
+    # ---- scaling oracle: absolute limits of the fork harness, a linear memory bound, and the ratio between sizes
+    scaling = {}
+    by_family = {}
+    for c, il in zip(scale_cases, simpl):
+        kinds["scale"] = kinds.get("scale", 0) + 1
+        f = parse_out(il).get(c["route"])
+        fam = "%s / %s" % (c["kind"].split(":", 1)[1], c["route"])
+        rep = {"kind": c["kind"], "route": c["route"], "routes": c["route"], "size": c["size"], "text_hex": hx(c["text"]),
+               "text": c["text"][:200].decode("latin-1") + " ... (%d bytes, %d line(s))" % (len(c["text"]), c["text"].count(b"\n") + 1),
+               "text_length": len(c["text"]), "impl": il[:400]}
+        stats["routes_run"] += 1
+        if f is None or f[0].split(":")[0] in LOST:
+            got = "no answer" if f is None else f[0]
+            scaling.setdefault(fam, {})[str(c["size"])] = {"outcome": got}
+            run.violation("%d bytes on one line through %s end in %s: the front end does not run in time and memory proportional to "
+                          "the input (limits of the fork harness: %d MB address space, 1.5 s + 5 s per 64 KB)"
+                          % (len(c["text"]), c["route"], got, 3072), rep)
+            continue
+        ms, kb = int(f[3]), int(f[4])
+        scaling.setdefault(fam, {})[str(c["size"])] = {"ms": ms, "peak_kb": kb, "class": f[0]}
+        by_family.setdefault(fam, []).append((c["size"], ms, kb, rep))
+        stats["max_ms"] = max(stats["max_ms"], ms)
+        if f[0] == "NONE" and not c["kind"].endswith("plain-text-one-line"):
+            run.violation("a valid text of the scaling family gets no result through %s" % c["route"], rep)
+            continue
+        distinct.add(c["text"])
+        limit = SCALE_MEM_BASE_KB + SCALE_MEM_PER_BYTE * len(c["text"]) // 1024
+        if kb > limit:
+            rep["peak_kb"], rep["limit_kb"] = kb, limit
+            run.violation("%d bytes on one line through %s need %d MB of memory (more than %d MB = 16 MB + 1 KB per input byte): "
+                          "memory is not proportional to the input" % (len(c["text"]), c["route"], kb // 1024, limit // 1024), rep)
+    for fam, rows in by_family.items():
+        rows.sort()
+        for (n1, ms1, kb1, _), (n2, ms2, kb2, rep2) in zip(rows, rows[1:]):
+            grow = n2 / float(n1)
+            if kb2 > SCALE_MEM_FLOOR_KB and kb2 > SCALE_RATIO * grow / 2.0 * max(kb1, SCALE_MEM_FLOOR_KB / 4):
+                rep2["smaller"] = {"size": n1, "ms": ms1, "peak_kb": kb1}; rep2["peak_kb"] = kb2
+                run.violation("%s: %d -> %d bytes on one line raise the peak memory from %d KB to %d KB (more than %.1f-fold for a "
+                              "%.1f-fold input): memory grows faster than the input" % (fam, n1, n2, kb1, kb2, SCALE_RATIO * grow / 2.0, grow), rep2)
+            if ms2 > SCALE_TIME_FLOOR_MS and ms2 > 2 * SCALE_RATIO * grow / 2.0 * max(ms1, SCALE_TIME_FLOOR_MS / 8):
+                rep2["smaller"] = {"size": n1, "ms": ms1, "peak_kb": kb1}; rep2["ms"] = ms2
+                run.violation("%s: %d -> %d bytes on one line raise the time from %d ms to %d ms: time grows faster than the input"
+                              % (fam, n1, n2, ms1, ms2), rep2)
+    stats["scaling_one_line"] = scaling
+
     # what does the model of the code as it stood before the C10 repairs say about the failing inputs?
     if pending:
         idxs = sorted(set(p[0] for p in pending))[:200]
@@ -313,14 +404,17 @@ def main(replay=None):
     for p in problems:
         run.violation("proof obligation not discharged: " + p, {"broken": p, "theorems": run.cov["theorems"]}, found_input=False)
 
-    run.cov["evaluations"] = len(cases)
+    run.cov["evaluations"] = len(cases) + len(scale_cases)
     run.cov["distinct_nontrivial"] = len(distinct)
     run.cov["rule"] = ("every case is a byte string fed to each front end (both tokenizers, the preprocessor's reader, preprocessor, SQF parser, config parser, "
                        "and compile / assembly__ / preprocess__ / configparse__ run as scripts) in a forked child with a watchdog of 5 s per 64 KB, an 8 MB "
                        "stack and an address-space limit, twice on two fresh runtimes; oracle: no crash/timeout/OOM/exception, no result implies an "
                        "error-level diagnostic, both runs equal, recursive macros/includes give 10014/10003; tokens, reader characters, get_word/get_line "
                        "and #define splitting are compared with the extracted mechanism models; non-trivial = at least one route returned a result; "
-                       "distinct by text. Thorough tier: every prefix of every corpus file, sanitizer build.")
+                       "distinct by text. Thorough tier: every prefix of every corpus file, sanitizer build. Scaling family: texts whose whole size "
+                       "is on ONE line (statements, array elements, operators, strings, config entries and classes, macro uses and calls) at 20/40/80 KB, "
+                       "one route per case on the plain build; peak memory (rise of the child's ru_maxrss) must stay below 16 MB + 1 KB per input byte and, "
+                       "like the time, at most triple when the input doubles; per-size time and peak memory are in outcomes.scaling_one_line.")
     run.cov["input_distribution"] = kinds
     run.cov["samples"] = samples
     run.cov["outcomes"] = stats
